@@ -33,6 +33,7 @@ LEVEL = 'exploration'
 P, PID = c01.P, c01.PID
 MODEL = ('postgres', 'mysql')
 RENDER = ('oracle', 'cockroach')
+PENDING = '~sqlite refuses the query~'
 INTERNAL = (AssertionError, KeyError, AttributeError, IndexError, NameError, UnboundLocalError, RecursionError)
 # measured on the unchanged tree (quick): postgres 69 %, mysql 63 % of the queries Pony translates are decided by the model and judged;
 # what is left is undecided for the reasons listed in coverage.dialects.<d>.undecided_by_reason (string collation above all)
@@ -113,6 +114,7 @@ def check_query(sub, st, pos, q, E, prods, hashes, ev=None, render=True):
             sigs[d] = J.signatures(st['eng'][d], st, pos, q, E, mm)
     base = sigs.get('sqlite')
     sq = st['eng']['sqlite']
+    for v in (base or {}).values(): sub.count('sqlitesig:' + v[0])
     for d in MODEL:
         if d not in sigs: continue
         eng = st['eng'][d]
@@ -137,7 +139,8 @@ def check_query(sub, st, pos, q, E, prods, hashes, ev=None, render=True):
                 note = ' (the sub-expression fails on SQLite too; its value or its effect in this query differs)'
                 sig = sig + ' / differently from SQLite in: ' + qx.op_skeleton(E)
             sub.count(d + ':dialect_specific_disagreement')
-            sub.violation('%s: %s' % (d, sig), case(d, pos, q, E, sql=outs[d].sql, mismatch=repr(m), row=rid, signature=sig),
+            # SQLite refuses the whole query: whether this is C01's finding (same signature on SQLite elsewhere) is settled in run()
+            sub.violation('%s%s: %s' % ('' if base is not None else PENDING, d, sig), case(d, pos, q, E, sql=outs[d].sql, mismatch=repr(m), row=rid, signature=sig),
                           '%s [%s] on %s -> %r%s%s' % (text, pos, d, m, '' if base is not None else ' (SQLite refuses the query)', note))
     if base:
         for key, (sig, m, rid, M) in sorted(base.items(), key=lambda kv: (kv[1][0], str(kv[0]))):
@@ -367,6 +370,16 @@ def run(ctx):
         hashes.update(d.pop('hashes'))
         core.absorb(ctx, d)
     c = ctx.counters
+    # a disagreement of a model dialect on a query that SQLite refuses: C01's finding when SQLite shows the same signature elsewhere
+    sqlite_sigs = set(k.split(':', 1)[1] for k in c if k.startswith('sqlitesig:'))
+    for k in sorted(k for k in ctx.found if k.startswith(PENDING)):
+        e = ctx.found.pop(k)
+        name = k[len(PENDING):]
+        d, sig = name.split(': ', 1)
+        if sig in sqlite_sigs: ctx.count(d + ':same_signature_as_sqlite_on_other_queries(C01)', e['n'])
+        else: ctx.merge_found({name: e})
+    for k in [k for k in list(c) if k.startswith('sqlitesig:')]: del c[k]
+    ctx.cov['sqlite_failing_signatures'] = len(sqlite_sigs)
     per = {}
     prods = sorted(set(k.split(':', 2)[2] for k in c if k.startswith(('judged:', 'bydesign:', 'other:'))))
     for d in L.DIALECTS:
@@ -383,6 +396,7 @@ def run(ctx):
                       dialect_specific_failing_rows=c.get(d + ':dialect_specific_disagreement', 0),
                       queries_disagreeing_otherwise_than_sqlite=c.get(d + ':queries_disagreeing_otherwise_than_sqlite', 0),
                       same_failure_as_sqlite=c.get(d + ':same_failure_as_sqlite(C01)', 0) + c.get(d + ':same_signature_as_sqlite(C01)', 0),
+                      same_signature_as_sqlite_on_other_queries=c.get(d + ':same_signature_as_sqlite_on_other_queries(C01)', 0),
                       reattributed_above_a_shared_failure=c.get(d + ':reattributed_above_a_shared_failure', 0),
                       decided_share_percent=int(100.0 * c.get(d + ':judged', 0) / max(1, q - ref)),
                       undecided_by_reason={k.split(':', 2)[2]: v for k, v in sorted(c.items()) if k.startswith(d + ':undecided:')},
@@ -449,6 +463,7 @@ def replay(ctx, case):
     for e in ('sqlite', d):
         eng = st['eng'][e]
         if e != 'sqlite' and eng.last: print('%-8s: %s %r' % (e, eng.last[0].replace('\n', ' '), eng.last[1]))
+    for k in [k for k in sub.found if k.startswith(PENDING)]: sub.found[k[len(PENDING):]] = sub.found.pop(k)
     for sig, v in sorted(sub.found.items()): print('found   :', sig, '|', v['message'][:300])
     want = case.get('signature')
     if want is None: return not sub.found
